@@ -208,6 +208,39 @@ class Net:
         return interesting
 
 
+class ScriptNet:
+    """The network as the IMPLEMENTATION accepted it, rebuilt from a script and
+    the harness' answers (used by the oracle and by --replay)."""
+
+    def __init__(self, lines, out):
+        self.muxes = []
+        self.outs = []
+        nchans = 0
+        for l, o in zip(lines, out):
+            w = l.split()
+            if not w:
+                continue
+            if w[0] == "reset":
+                self.muxes, self.outs, nchans = [], [], 0
+            elif w[0] == "chan" and o == "ok":
+                nchans += 1
+            elif w[0] == "mux" and o == "ok":
+                self.muxes.append({"id": len(self.muxes), "sel": int(w[2]), "out": int(w[3]), "kind": w[4],
+                                   "inputs": [None] * int(w[5]), "default": w[6] if len(w) > 6 else "null"})
+                if int(w[3]) not in self.outs:
+                    self.outs.append(int(w[3]))
+            elif w[0] == "input" and o == "ok":
+                self.muxes[int(w[1])]["inputs"][int(w[2])] = int(w[3])
+            elif w[0] == "track" and o.startswith("ok"):
+                mode = int(w[1])
+                if mode != 0:
+                    self.muxes.append({"id": len(self.muxes), "sel": int(w[2]), "out": nchans,
+                                       "kind": "running" if mode == 1 else "active", "inputs": [int(w[3])],
+                                       "default": "null"})
+                    self.outs.append(nchans)
+                nchans += 1
+
+
 def frame_ok(net, m):
     """The frame condition of theorem mux_round for mux m (no output is a
     select/input of m, m's output is private, select is not one of m's inputs)."""
@@ -284,7 +317,7 @@ def oracle_x1(net, lines, out, res):
                         probs.append(f"channel {c}: last_value {f['last']} != value {f['v']} after flush (line {i})")
                 if not user_wrote_out:
                     for m in net.muxes:
-                        if not frame_ok(net, m):
+                        if None in m["inputs"] or not frame_ok(net, m):
                             continue
                         if m["id"] not in sel_seen and m["default"] != "null":
                             continue
@@ -311,7 +344,7 @@ def oracle_x1(net, lines, out, res):
                             if st[m["id"]] != wants:
                                 probs.append(f"mux {m['id']}: mechanism state '{st[m['id']]}' expected '{wants}' (line {i})")
                 dirty_now = set()
-            else:
+            elif o != "err unset":
                 break
         i += 1
     return probs
@@ -372,17 +405,23 @@ def run_x1(res, prep, cases, tag="x1"):
             k = next((i for i, l in enumerate(ls) if l == "propagate"), 0)
             res.sample({"script": ls[:k + 1][-14:], "impl": io[:k + 1][-14:]})
         dis = [(i, l, x, y) for i, (l, x, y) in enumerate(zip(ls, io, mo)) if x != y]
-        probs = oracle_x1(net, ls, io, res)
+        probs = oracle_x1(ScriptNet(ls, io), ls, io, res)
         if probs:
             found = True
+            res.cov["x1_oracle_violations"] = res.cov.get("x1_oracle_violations", 0) + 1
             res.violation(f"{tag}:oracle:" + probs[0].split("(line")[0].strip()[:60].replace(" ", "_"),
                           "view property violated by the real bay/mux code: " + "; ".join(probs[:3]),
                           text + "\n# " + "\n# ".join(probs[:6]))
         elif dis:
+            # the proved model and the real code disagree on a concrete script:
+            # that script is the failing input
             ndis += 1
+            found = True
             i, l, x, y = dis[0]
-            res.cov.setdefault("correspondence_breaks", []).append(
-                {"what": f"bay line {i} '{l}': impl '{x}' model '{y}'", "script": "\n".join(ls[:i + 1])[-1500:]})
+            res.cov.setdefault("x1_disagreements", []).append(f"line {i} '{l}': impl '{x}' model '{y}'")
+            res.violation(f"{tag}:disagree:" + l.split()[0] + ":" + x.split()[0] + "-vs-" + y.split()[0],
+                          f"real bay/mux code and the proved Lean bay disagree at line {i} '{l}': impl '{x}' model '{y}'",
+                          "\n".join(ls[:i + 1]) + f"\n# impl:  {x}\n# model: {y}\n# replay: checks/check.py C06 --replay <this file>")
     return found, ndis
 
 
@@ -391,10 +430,15 @@ def replay_x1(res, prep, path):
     h = harness(prep)
     _, impl, _ = engine.run_lines(h, lines)
     _, model, _ = engine.run_lines(engine.exe("drv_bay"), lines)
+    res.case("\n".join(lines))
+    probs = oracle_x1(ScriptNet(lines, impl), lines, impl, res)
+    if probs:
+        res.violation("x1:replay:oracle", "view property violated by the real bay/mux code: " + "; ".join(probs[:3]),
+                      "\n".join(lines) + "\n# " + "\n# ".join(probs[:6]))
+        return True
     for i, (l, a, b) in enumerate(zip(lines, impl, model)):
-        res.case(l)
         if a != b:
-            res.violation("x1:replay", f"line {i} '{l}': impl '{a}' model '{b}'", "\n".join(lines[:i + 1]))
+            res.violation("x1:replay:disagree", f"line {i} '{l}': impl '{a}' model '{b}'", "\n".join(lines[:i + 1]))
             return True
     return False
 
@@ -433,6 +477,8 @@ def check(res, tier, replay=None):
             cases = x1_cases(r, res, n1)
             f1, ndis = run_x1(res, prep, cases)
             found = found or f1
+            res.cov.setdefault("x1_oracle_violations", 0)
+            res.cov["x1_model_disagreements"] = ndis
             res.cov["x1_cases"] = n1
             # ---------------- X2: e2e views ----------------
             tables = emu_props.load_tables()
@@ -456,6 +502,7 @@ def check(res, tier, replay=None):
                 return list(p) + list(emu_props.oracle_cpu_rows(sysd, itl))
             f2 = c04.run_cases(res, prep, ecases, "c06", types, lint=True, spec_oracle=False, oracle=oracle)
             found = found or f2
+            res.cov["x2_property_violations"] = bool(f2)
             res.cov["x2_cases"] = n2
         for b in res.cov.get("correspondence_breaks", [])[:3]:
             proved = False
